@@ -254,7 +254,9 @@ def _descent_direction(X, y, w_epoch, Xw_epoch, fit_intercept, grad_ws, datafit,
         if fit_intercept:
             past_grads_intercept = grad_intercept + raw_hess @ X_delta_w_ws
             old_intercept = w_ws[-1]
-            w_ws[-1] -= past_grads_intercept / lipschitz_intercept
+            # skip when the curvature vanishes (saturated predictor), as for features
+            if lipschitz_intercept != 0:
+                w_ws[-1] -= past_grads_intercept / lipschitz_intercept
 
             if w_ws[-1] != old_intercept:
                 X_delta_w_ws += w_ws[-1] - old_intercept
@@ -329,7 +331,9 @@ def _descent_direction_s(X_data, X_indptr, X_indices, y, w_epoch,
         if fit_intercept:
             past_grads_intercept = grad_intercept + raw_hess @ X_delta_w_ws
             old_intercept = w_ws[-1]
-            w_ws[-1] -= past_grads_intercept / lipschitz_intercept
+            # skip when the curvature vanishes (saturated predictor), as for features
+            if lipschitz_intercept != 0:
+                w_ws[-1] -= past_grads_intercept / lipschitz_intercept
 
             if w_ws[-1] != old_intercept:
                 X_delta_w_ws += w_ws[-1] - old_intercept
